@@ -145,6 +145,8 @@ struct World {
     art_viol: std::cell::RefCell<Vec<Viol>>,
     /// a summary reached the 20 000-character cap: its trailing sections are cut, the case is not compared
     truncated: std::cell::Cell<bool>,
+    /// no concurrent callers in this world
+    sequential: bool,
 }
 
 fn unknown_uuid(k: u64) -> String {
@@ -161,7 +163,7 @@ impl World {
         let log = Arc::new(EventLog::new(data.join("events.jsonl")).unwrap());
         let store = Arc::new(ContinuityStore::new(data.clone(), ws.clone(), log.clone()).unwrap());
         let tid = store.ensure_default().unwrap();
-        let mut w = World { _scratch: scratch, root, data, ws, log, store, tid, events: vec![], fid: HashMap::new(), arts: vec![], jobs: vec![], contents: HashMap::new(), art_viol: Default::default(), truncated: Default::default() };
+        let mut w = World { _scratch: scratch, root, data, ws, log, store, tid, events: vec![], fid: HashMap::new(), arts: vec![], jobs: vec![], contents: HashMap::new(), art_viol: Default::default(), truncated: Default::default(), sequential: true };
         w.refresh();
         w
     }
@@ -177,6 +179,7 @@ impl World {
                 EventKind::ContinuityCompactionCheckpointCreated { summary_artifact_id, .. } => {
                     if !self.arts.iter().any(|a| &a.0 == summary_artifact_id) {
                         let (enc, md) = self.read_art(summary_artifact_id);
+                        self.check_base_choice(summary_artifact_id, e.seq);
                         self.arts.push((summary_artifact_id.clone(), enc, md));
                     }
                 }
@@ -187,6 +190,34 @@ impl World {
                 }
                 _ => {}
             }
+        }
+    }
+    /// Sequential runs only (no other call appends between a summary's base look-up and its checkpoint frame): the
+    /// base a new summary records is the summary of the latest checkpoint frame below its cut — greatest to_seq
+    /// < coverage.to_seq, then the latest frame — among the frames before the one that introduces the summary.
+    /// Recomputed from events.jsonl and the artifact alone (c09_summary_base_is_latest_below_cut).
+    fn check_base_choice(&self, id: &str, frame_seq: u64) {
+        if !self.sequential {
+            return;
+        }
+        let Some(v) = self.read_art_json(id) else { return };
+        let Some(t) = v["coverage"]["to_seq"].as_u64() else { return };
+        let want = self
+            .events
+            .iter()
+            .filter(|e| e.seq < frame_seq)
+            .filter_map(|e| match &e.kind {
+                EventKind::ContinuityCompactionCheckpointCreated { summary_artifact_id, to_seq, .. } if *to_seq < t => Some((*to_seq, e.seq, summary_artifact_id.clone())),
+                _ => None,
+            })
+            .max_by_key(|x| (x.0, x.1))
+            .map(|x| x.2);
+        let got = v["basis"]["base_summary_artifact_id"].as_str().map(|x| x.to_string());
+        if got != want {
+            self.art_viol.borrow_mut().push(Viol {
+                what: format!("summary {id} (coverage to_seq {t}, introduced by frame seq {frame_seq}) records base {:?} (artifact #{}); the latest checkpoint frame below the cut names {:?} (artifact #{})", got, got.as_ref().map(|g| self.art_no(g)).unwrap_or(0), want, want.as_ref().map(|g| self.art_no(g)).unwrap_or(0)),
+                class: "summary_base_not_latest_checkpoint".into(),
+            });
         }
     }
     fn art_no(&self, id: &str) -> u64 {
@@ -722,6 +753,8 @@ fn oracle_history(w: &World, dropped: &[String], v: &mut Vec<Viol>) {
                         Some(s) => {
                             if s["coverage"]["to_seq"].as_u64() != Some(*to_seq) {
                                 v.push(Viol { what: format!("summary coverage to_seq {} != checkpoint to_seq {to_seq}", s["coverage"]["to_seq"]), class: "summary_coverage_mismatch".into() });
+                            } else if s["coverage"]["thread_id"].as_str() != Some(w.tid.as_str()) || s["coverage"]["from_seq"].as_u64() != Some(0) || s["coverage"]["to_message_id"].as_str() != to_message_id.as_deref() {
+                                v.push(Viol { what: format!("summary coverage {} does not match the checkpoint frame (thread {}, from_seq 0, to_seq {to_seq}, to_message_id {to_message_id:?})", s["coverage"], w.tid), class: "summary_coverage_mismatch".into() });
                             }
                         }
                     }
@@ -1408,6 +1441,7 @@ fn run_conc(prefix: &[Op], calls: &[Spec], seed: u64, fixed: Option<&[u64]>) -> 
     use rv::sched::Sched;
     let mut w = World::new("c09c");
     apply_prefix(&mut w, prefix);
+    w.sequential = false;
     let mut sc = Sched::new();
     if let Some(s) = Arc::get_mut(&mut sc) {
         s.step_timeout = std::time::Duration::from_secs(180);
@@ -1715,6 +1749,19 @@ fn gen_case(r: &mut Rng, long: bool) -> Vec<Op> {
         // artifact of its predecessor; then the query that has to name the last of them.
         ops.extend(dup_block(r, st, arts));
         ops.push(Op::Cut { stride: Some(st), limit: Some(*r.pick(&[1u64, 2, 32])) });
+        if r.below(2) == 0 {
+            // the next cut is summarised on top of those frames: its base must be the LAST of them (manual: the scan
+            // over the replayed stream; auto / schedule: the sidecar look-up)
+            for _ in 0..st.min(8) {
+                ops.push(Op::Msg { actor: r.below(actors), content: r.below(40) });
+            }
+            ops.push(match r.below(3) {
+                0 => Op::Auto { stride: Some(st), maxnew: Some(1), dry: None },
+                1 => Op::Sched { stride: Some(st), maxnew: Some(1), block: Some(false), exec: Some(true), dry: None },
+                _ => Op::Manual { md: Some(0), art: None, to_mid: None, to_seq: None, stride: Some(st) },
+            });
+            ops.push(Op::Status { stride: Some(st) });
+        }
     }
     if let Some(k) = fault {
         // terminal cache-fault block: damage the caches, then only read-only queries (dry runs append nothing)
